@@ -440,6 +440,44 @@ class Discharger:
         return (False, None, "no discharge rule applies")
 
     # -------------------------------------------------------------- helpers
+    def _is_procedure_body_end(self, f, t):
+        """x.unwrap() where x is split_last() / last() / split_first() / first() of the body expressions of a SchemeProcedure (field 2
+        of the parser's procedure node), followed through references and Vec / slice views"""
+        src = self._unwrap_src(f, t)
+        if not src or not callee_matches(src[1], "split_last", "split_first", "slice::<impl [T]>::last", "slice::<impl [T]>::first"):
+            return False
+        l = mir.op_local(src[1]["args"][0])
+        for _ in range(8):
+            ds = mir.defs_of(f).get(l, []) if l is not None else []
+            if len(ds) != 1:
+                return False
+            d = ds[0]
+            if d[0] == "call":
+                if not callee_matches(d[2], "Deref>::deref", "Vec::as_slice", "AsRef>::as_ref", "Borrow>::borrow"):
+                    return False
+                l = mir.op_local(d[2]["args"][0])
+                continue
+            rv = d[3]["rv"]
+            if rv["k"] == "use":
+                pl = rv["op"].get("place")
+            elif rv["k"] == "ref":
+                pl = rv["place"]
+            else:
+                return False
+            if not pl:
+                return False
+            proj = pl.get("proj") or []
+            fields = [(k_, e_) for k_, e_ in enumerate(proj) if e_.get("k") == "field"]
+            for (k1, e1), (k2, e2) in zip(fields, fields[1:]):
+                if e1.get("ty") == "parser::parser::SchemeProcedure" and e2.get("i") == 2:
+                    return all(e_.get("k") in ("deref", "field", "downcast") for e_ in proj)
+            if fields and fields[0][1].get("i") == 2 and "parser::parser::SchemeProcedure" in f.local_ty(pl["local"]).replace("&", "").strip().split("<")[0]:
+                return all(e_.get("k") in ("deref", "field", "downcast") for e_ in proj)
+            if any(e_.get("k") != "deref" for e_ in proj):
+                return False
+            l = pl["local"]
+        return False
+
     def _unwrap_src(self, f, t):
         """the call whose result is unwrapped (through Option::as_ref etc.)"""
         l = mir.op_local(t["args"][0])
@@ -926,7 +964,8 @@ class Discharger:
             return allow(1, "the item sequence starts with a Proper item (from_iter maps every item to Proper; substitude_ellipsis_item "
                          "replays the kinds produced by into_pair_iter, whose first item is Proper), so the result is a pair; callers: %s" % callers, okc)
         # --- parser invariants
-        if name.split("::{closure")[0] == ITP + "apply_scheme_procedure" and what in ("unreachable", "panic"):
+        if (name.split("::{closure")[0] == ITP + "apply_scheme_procedure" and what in ("unreachable", "panic")) or \
+                (kind == "unwrap" and name.startswith("interpreter::") and self._is_procedure_body_end(f, t)):
             # the arm for a procedure without body expressions: the crate's own lexer and parser are run on procedures whose body
             # is empty or holds definitions only — every one has to be refused (then no SchemeProcedure with an empty body exists)
             from . import readtables
@@ -952,6 +991,10 @@ class Discharger:
             return allow(1, "parser invariant: transform_formals validates the formals with split() (nested lists are rejected)", validated)
         if name == "parser::macros::<impl error::Located<parser::macros::SyntaxPatternBody>>::match_datum_stream" and what == "Option::unwrap":
             src = self._unwrap_src(f, t)
+            if n > 1 and bool(src) and callee_matches(src[1], "HashMap::get_mut"):
+                # a further site of the same shape: the argument was confirmed by reading for one site only — whether it covers this
+                # one as well (the key is a variable of the repeated sub-pattern) is not decided here
+                return (None, "D-table", "a second get_mut(..).unwrap() on the substitutions: the argument confirmed for one site is not extended to it")
             return allow(1, "the variables of the repeated sub-pattern were inserted into the substitutions when it matched the first item "
                          "(trusted argument about the matcher, listed in assumptions)", bool(src) and callee_matches(src[1], "HashMap::get_mut"))
         if name == "parser::macros::UserDefinedTransformer::transform":
